@@ -13,6 +13,8 @@ from __future__ import annotations
 
 import itertools
 import json
+import os
+import sys
 
 from vlib import c19eval, core
 from vlib.core import cbool
@@ -427,7 +429,32 @@ def pair_clause(a, b, clause):
     raise ValueError(clause)
 
 
-PREDICATES = {"cross-process": p_cross_process, "crs-pairs": p_crs_pairs, "array-tokens": p_array_tokens, "many-crs": p_many_crs, "transformers-all": p_transformers_all, "crs-relation": p_crs_relation, "history": p_history, "transformer": p_transformer, "tiles-token": p_tiles_token, "gcp-pickle": p_gcp_pickle,
+def p_spelling_order(spellings):
+    """str / hash / token / epsg of CRS(spec) do not depend on which spelling of the same definition the process
+    constructed first (each order runs in a fresh interpreter); the spellings are equal and share hash and token"""
+    import itertools
+    import subprocess
+    prog = ("import sys, json\nfrom dask.base import tokenize\nfrom odc.geo.crs import CRS\n"
+            "sp = json.loads(sys.argv[1])\ncc = [CRS(s) for s in sp]\n"
+            "print(json.dumps({s: [str(c), c.epsg, tokenize(c), all(c == d and hash(c) == hash(d) for d in cc)] for s, c in zip(sp, cc)}))")
+    seen = {}
+    env = dict(os.environ, PYTHONHASHSEED="0", PYTHONPATH=os.environ.get("VERIF_REPO", "/repo"))
+    for order in itertools.permutations(spellings):
+        r = subprocess.run([sys.executable, "-c", prog, json.dumps(list(order))], capture_output=True, text=True, env=env, timeout=120)
+        if r.returncode != 0:
+            return False, f"order {list(order)}: {r.stderr.strip().splitlines()[-1] if r.stderr.strip() else 'failed'}"
+        got = json.loads(r.stdout)
+        for s_, v in got.items():
+            if not v[3]:
+                return False, f"order {list(order)}: CRS({s_!r}) is not ==/hash-equal to the other spellings"
+            if s_ in seen and seen[s_][0] != v[:3]:
+                return False, (f"CRS({s_!r}) has (str, epsg, token) {v[:3]} when constructed in order {list(order)} "
+                               f"but {seen[s_][0]} in order {seen[s_][1]}")
+            seen.setdefault(s_, (v[:3], list(order)))
+    return True, f"{len(seen)} spellings, every construction order"
+
+
+PREDICATES = {"spelling-order": p_spelling_order, "cross-process": p_cross_process, "crs-pairs": p_crs_pairs, "array-tokens": p_array_tokens, "many-crs": p_many_crs, "transformers-all": p_transformers_all, "crs-relation": p_crs_relation, "history": p_history, "transformer": p_transformer, "tiles-token": p_tiles_token, "gcp-pickle": p_gcp_pickle,
               "lossless": p_lossless, "family-pair": family_pair}
 from vlib import crshist  # noqa: E402
 PREDICATES["after_history"] = crshist.after_history(PREDICATES)
@@ -571,6 +598,15 @@ def part_a(out, tier, scratch, w):
         out.case(("attack", ops), True)
         if not ok:
             viol("c19:transformer-pair", detail, {"predicate": "transformers-all", "args": [ops], "observed": detail})
+    # authority strings in either letter case, including compound "EPSG:<horizontal>+<vertical>" definitions (outside the
+    # alphabet of the cache model: its contract k_toepsg_code covers single codes only)
+    for sp in (["epsg:4326+5773", "EPSG:4326+5773"], ["Epsg:3857", "EPSG:3857", "epsg:3857"], ["epsg:7415", "EPSG:7415"],
+               ["EPSG:4326+3855", "epsg:4326+3855"]):
+        ok, detail = p_spelling_order(sp)
+        out.count("predicate:spelling-order")
+        out.case(("spelling-order", tuple(sp)), True)
+        if not ok:
+            viol("c19:crs-history:spelling-order", detail, {"predicate": "spelling-order", "args": [sp], "observed": detail})
     for n in ((1100,) if tier == "quick" else (300, 1100, 5000)):
         ok, detail = p_many_crs(n)
         out.count("predicate:many-crs", n)
